@@ -1,6 +1,7 @@
 package kioshun
 
 import (
+	"math"
 	"sync/atomic"
 	"time"
 )
@@ -420,14 +421,23 @@ func (c *Cache[K, V]) applyWriteBatch(s *shard[K, V], batch []writeCommand[K, V]
 
 func (c *Cache[K, V]) stampExpireTime(cmd *writeCommand[K, V], now int64) {
 	if cmd.expireTime > 0 {
-		cmd.expireTime += now
+		cmd.expireTime = saturatingDeadline(cmd.expireTime, now)
 	}
 }
 
 func (c *Cache[K, V]) stampExpireTimeNow(cmd *writeCommand[K, V]) {
 	if cmd.expireTime > 0 {
-		cmd.expireTime += c.nowNano()
+		cmd.expireTime = saturatingDeadline(cmd.expireTime, c.nowNano())
 	}
+}
+
+// saturatingDeadline returns now+ttl clamped to the largest representable
+// deadline, so a huge TTL cannot wrap into a negative (already expired) stamp.
+func saturatingDeadline(ttl, now int64) int64 {
+	if now > 0 && ttl > math.MaxInt64-now {
+		return math.MaxInt64
+	}
+	return ttl + now
 }
 
 // newItem allocates a populated item for cmd. Items are not pooled: lock-free
